@@ -10,6 +10,7 @@ CONSTANTS n1 = n1
  Byz = {n6, n7}
  NV = 1
  Cands = {"A", "B"}
+ DecCands = {"A"}
  ThrMinus = 0
  ExVerify = TRUE
  AggVerify = TRUE
@@ -17,6 +18,7 @@ CONSTANTS n1 = n1
  MaxBad = 0
  MaxCrash = 0
  ByzClaims = "own"
+ HonestBatches = "any"
 INVARIANTS Safety
 PROPERTIES StoredStable RejectKeeps
 VIEW View
